@@ -122,6 +122,32 @@ func ruleTokenErr(c *eng.Ctx) {
 	// on the error edge the lookahead becomes a token of type TokenEOF: a store peekToken = &Token{Type: TokenEOF} on
 	// that edge, or (single-exit form) one store after the join whose value on the error edge is that token
 	isEOFToken := func(v ssa.Value) bool {
+		// a token constructor handed the EOF type: newToken(TokenEOF, ...) whose parameter goes into Token.Type
+		if call, isCall := v.(*ssa.Call); isCall {
+			if g := eng.StaticCallee(call); g != nil && g.Blocks != nil && eng.InModule(g) {
+				for i, prm := range g.Params {
+					if i >= len(call.Call.Args) {
+						break
+					}
+					k, isC := eng.ConstInt(call.Call.Args[i])
+					if !isC || k != eofVal {
+						continue
+					}
+					toType := false
+					eng.Instrs(g, false, func(in ssa.Instruction) {
+						if st, ok := in.(*ssa.Store); ok && st.Val == ssa.Value(prm) {
+							if fr, ok := eng.AsField(st.Addr); ok && fr.Field == "Type" {
+								toType = true
+							}
+						}
+					})
+					if toType {
+						return true
+					}
+				}
+			}
+			return false
+		}
 		al, ok := v.(*ssa.Alloc)
 		if !ok {
 			return false
